@@ -31,7 +31,8 @@ THEOREMS_NOTE = ("C09_resolve_exact / C09_resolve_never_other / C09_errors fix t
                  "from referrer, order and cache under case_unique; C09_standalone_refuted is the F7 witness")
 TRUSTED = ["parsimonious, pathlib and the file system are exercised through the implementation only",
            "names are ASCII in every generated case (str.lower() is modelled as ASCII lower-casing)"]
-ASSUMPTIONS = ["bodies are sealed structures made of composite fields (optionally fixed arrays), uintN fields, @print and @assert false"]
+ASSUMPTIONS = ["bodies are sealed structures made of composite fields (optionally fixed arrays), uintN fields, @print and @assert false",
+               "keyword arguments whose value equals the documented default are omitted in a pseudo-random half of the calls"]
 EXPLANATION = ("theorems quantify over all lookup lists, bodies and read orders of the model; the correspondence compares, per call, the "
                "trees of (file, full name, version) of nested composite field types or the error class with the model's value")
 LEVEL_TEXT = ("Machine-checked theorems (Coq, closed under the global context) about a Gallina model of resolve_versioned_data_type, "
@@ -248,16 +249,31 @@ def run_query(base, case, q, idmap, variant=None, err_detail=False):
     try:
         if bare is not None:
             os.chdir(os.path.join(base, *bare[:-1]))
+        # Keyword arguments whose value equals the documented default are OMITTED for a pseudo-random half of the calls
+        # (decided from the content of the call itself, so a replay repeats it): a changed default must not go unseen.
+        import json
+        import zlib
+        bits = zlib.crc32(json.dumps([{k: v for k, v in q.items() if k not in ("variants", "mutations")}, variant or {},
+                                      case.get("kwseed", 0)], sort_keys=True).encode())
+        kw = {}
+        if q["lookups"] or not bits & 1:
+            kw["lookup_directories"] = args(q["lookups"])
+        if not (no_prints(case) and not q.get("mutations")) or not bits & 2:
+            kw["print_output_handler"] = handler
+        au = allow_unregulated(case)
+        if au or not bits & 4:
+            kw["allow_unregulated_fixed_port_id"] = au
         if q["k"] == "ns":
-            res = pydsdl.read_namespace(sp(q["root"]), args(q["lookups"]), handler, allow_unregulated_fixed_port_id=True,
-                                        allow_root_namespace_name_collision=bool(q["allow"]))
+            if not q["allow"] or not bits & 8:
+                kw["allow_root_namespace_name_collision"] = bool(q["allow"])
+            res = pydsdl.read_namespace(sp(q["root"]), **kw)
             direct, trans = list(res), []
         else:
             targets = []
             for i in q["targets"]:
                 f = files[i]
                 targets.append(sp(f["dir"] + [basename(f)], how_t))
-            direct, trans = pydsdl.read_files(shaped(targets), args(q["roots"]), args(q["lookups"]), handler, allow_unregulated_fixed_port_id=True)
+            direct, trans = pydsdl.read_files(shaped(targets), args(q["roots"]), **kw)
         ob = {"ok": {"direct": [obs_tree(t, idmap) for t in direct], "trans": [obs_tree(t, idmap) for t in trans],
                      "deliv": deliv, "opened": sorted(set(idmap.get(p, -1) for p in _STATE["opened"]))}}
     except RecursionError:
@@ -279,6 +295,23 @@ def run_query(base, case, q, idmap, variant=None, err_detail=False):
             except OSError:
                 pass
     return ob
+
+
+def no_prints(case):
+    return not any(it[0] == "print" for f in case["files"] for it in f["body"]) and not any(f.get("text") for f in case["files"])
+
+
+def allow_unregulated(case):
+    """value of allow_unregulated_fixed_port_id for all calls of the case: the case says so, else True when any file name
+    carries a port-ID (the generator's port-IDs then need not be regulated) and False (= the default) when none does"""
+    if case.get("allow_unreg") is not None:
+        return bool(case["allow_unreg"])
+    return any(f.get("port") is not None for f in case["files"])
+
+
+def regulated(f):
+    """vendor range of subject-IDs (no generated root namespace is called uavcan / cyphal; all generated types are messages)"""
+    return f.get("port") is None or 6144 <= f["port"] <= 7167
 
 
 def case_dir():
@@ -858,13 +891,17 @@ def emit_obs(o):
 
 
 def emit_texts(case):
-    return G.lst(["(%s, %s)" % (G.z(f["id"]), G.lst([emit_item(it) for it in model_body(f)])) for f in case["files"]])
+    return G.lst(["(%s, %s)" % (G.z(f["id"]), G.lst([emit_item(it) for it in model_body(f, case)])) for f in case["files"]])
 
 
-def model_body(f):
-    """the abstract text; a file whose text was overridden by arbitrary content is modelled as an invalid definition"""
+def model_body(f, case=None):
+    """the abstract text; a file whose text was overridden by arbitrary content is modelled as an invalid definition; with
+    allow_unregulated_fixed_port_id=False a definition with an unregulated port-ID is rejected when it has been
+    processed completely, i.e. like a failing last line"""
     if f.get("text") is not None:
         return [["fault"]]
+    if case is not None and not allow_unregulated(case) and not regulated(f):
+        return list(f["body"]) + [["fault"]]
     return f["body"]
 
 
